@@ -25,6 +25,10 @@
 //!     patch and every patch edge-connected, for every input; maximal connectivity only where no directed edge occurs
 //!     in two faces (with a flipped face the unchanged code's answer depends on the start face, DESIGN D8);
 //! (f) `chained_indices` on 1..=12 separate simple chains / closed loops of 1..=9 links in 4 storage orders.
+//! (g) ROUND 4: `calc_edges` on INCONSISTENTLY wound meshes on which the unchanged code terminates: no edge in more than two
+//!     faces and the boundary edges (in the direction of their only face) give every boundary vertex exactly one successor
+//!     and one predecessor - closed surfaces with any faces flipped, disks with flipped interior faces.  The hand-built
+//!     meshes of (c) additionally with reversed vertex numbering and with the interior vertices numbered last.
 use super::{close, Report};
 use crate::geom3::{Mesh, Point3};
 use std::collections::HashSet;
@@ -284,24 +288,17 @@ fn check_cycles(r: &mut Report, loops: &[Vec<u32>], boundary: &[(u32, u32)], wha
     canon(&per_loop)
 }
 
-fn check_mesh(r: &mut Report, verts: &[Point3], faces: &[[u32; 3]], label: &str) {
-    r.case();
+/// the edge-table clauses: produced (not Err) for a mesh with no edge in more than two faces; each undirected edge exactly
+/// once with its length; every face mapped to its three edges; the boundary loops are closed vertex cycles that together
+/// contain every boundary edge exactly once; same answer as sets on a repeated run (fresh hash state)
+fn check_edge_table(r: &mut Report, mesh: &Mesh, verts: &[Point3], faces: &[[u32; 3]], label: &str) {
     let nf = faces.len();
-    let mesh = Mesh::new(verts.to_vec(), faces.to_vec(), false);
     let desc = || format!("{} faces {:?}", label, faces);
-    r.check(mesh.faces() == faces && mesh.vertices() == verts, "mesh: Mesh::new keeps the face list and the vertex list", desc);
-    // ---- oracle
     let mut und: Vec<(u32, u32)> = Vec::new();
     let mut all: Vec<(u32, u32)> = Vec::new();
     for f in faces { for e in dir_edges(f) { let k = ue(e.0, e.1); all.push(k); if !und.contains(&k) { und.push(k); } } }
     und.sort();
     let boundary: Vec<(u32, u32)> = und.iter().copied().filter(|e| all.iter().filter(|x| *x == e).count() == 1).collect();
-    let mut d = Dsu::new(nf);
-    for a in 0..nf { for b in 0..a {
-        if dir_edges(&faces[a]).iter().any(|e| dir_edges(&faces[b]).iter().any(|g| ue(e.0, e.1) == ue(g.0, g.1))) { d.union(a, b); }
-    } }
-    let comp = d.groups();
-    // ---- edge table, face -> edges, boundary loops (twice: fresh hash state each time)
     let mut first_edges: Option<(Vec<(u32, u32)>, Vec<Vec<(u32, u32)>>)> = None;
     for _run in 0..2 {
         match mesh.calc_edges() {
@@ -337,6 +334,51 @@ fn check_mesh(r: &mut Report, verts: &[Point3], faces: &[[u32; 3]], label: &str)
             }
         }
     }
+}
+
+/// class G (what `calc_edges` must answer although the winding may be INCONSISTENT): proper triangles, no undirected edge
+/// in more than two faces, and the boundary edges - each taken in the direction of its only face - give every boundary
+/// vertex exactly one successor and one predecessor.  Closed surfaces with any faces flipped and disks with flipped
+/// INTERIOR faces are in G; a flipped face that owns a boundary edge, or a vertex-only contact on the boundary, is not (D7)
+fn in_class_g(faces: &[[u32; 3]]) -> bool {
+    let mut allu: Vec<(u32, u32)> = Vec::new();
+    for f in faces {
+        if f[0] == f[1] || f[1] == f[2] || f[2] == f[0] { return false; }
+        for e in dir_edges(f) { allu.push(ue(e.0, e.1)); }
+    }
+    let mut bd: Vec<(u32, u32)> = Vec::new();
+    for f in faces { for e in dir_edges(f) {
+        let c = allu.iter().filter(|x| **x == ue(e.0, e.1)).count();
+        if c > 2 { return false; }
+        if c == 1 { bd.push(e); }
+    } }
+    for (i, a) in bd.iter().enumerate() { for b in bd[..i].iter() { if a.0 == b.0 || a.1 == b.1 { return false; } } }
+    true
+}
+fn inconsistent(faces: &[[u32; 3]]) -> bool {
+    let mut de: Vec<(u32, u32)> = Vec::new();
+    for f in faces { for e in dir_edges(f) { if de.contains(&e) { return true; } de.push(e); } }
+    false
+}
+
+fn check_mesh(r: &mut Report, verts: &[Point3], faces: &[[u32; 3]], label: &str) {
+    r.case();
+    let nf = faces.len();
+    let mesh = Mesh::new(verts.to_vec(), faces.to_vec(), false);
+    let desc = || format!("{} faces {:?}", label, faces);
+    r.check(mesh.faces() == faces && mesh.vertices() == verts, "mesh: Mesh::new keeps the face list and the vertex list", desc);
+    // ---- oracle
+    let mut und: Vec<(u32, u32)> = Vec::new();
+    let mut all: Vec<(u32, u32)> = Vec::new();
+    for f in faces { for e in dir_edges(f) { let k = ue(e.0, e.1); all.push(k); if !und.contains(&k) { und.push(k); } } }
+    und.sort();
+    let boundary: Vec<(u32, u32)> = und.iter().copied().filter(|e| all.iter().filter(|x| *x == e).count() == 1).collect();
+    let mut d = Dsu::new(nf);
+    for a in 0..nf { for b in 0..a {
+        if dir_edges(&faces[a]).iter().any(|e| dir_edges(&faces[b]).iter().any(|g| ue(e.0, e.1) == ue(g.0, g.1))) { d.union(a, b); }
+    } }
+    let comp = d.groups();
+    check_edge_table(r, &mesh, verts, faces, label);
     // ---- patches (three times)
     let mut first_p: Option<Vec<Vec<usize>>> = None;
     for _run in 0..3 {
@@ -451,17 +493,128 @@ fn run_built_meshes(r: &mut Report, p: &Progress) {
     let fv: Vec<Point3> = vec![Point3::new(0.0, 0.0, 0.0), Point3::new(2.0, 0.0, 0.0), Point3::new(1.0, 2.0, 0.5), Point3::new(-1.5, 1.0, 0.0), Point3::new(-1.0, -2.0, 0.25), Point3::new(1.5, -1.5, 0.0)];
     fam.push(("open fan".into(), fv.clone(), vec![[0, 1, 2], [0, 2, 3], [0, 3, 4], [0, 4, 5]]));
     fam.push(("closed fan (disk)".into(), fv.clone(), vec![[0, 1, 2], [0, 2, 3], [0, 3, 4], [0, 4, 5], [0, 5, 1]]));
+    // a disk whose centre vertex carries the highest id (the lexicographically last edge is interior), and a 4x4 grid
+    let cv: Vec<Point3> = vec![Point3::new(2.0, 0.0, 0.0), Point3::new(1.0, 2.0, 0.5), Point3::new(-1.5, 1.0, 0.0), Point3::new(-1.0, -2.0, 0.25), Point3::new(1.5, -1.5, 0.0), Point3::new(0.0, 0.0, 0.0)];
+    fam.push(("closed fan (disk) around the LAST vertex".into(), cv, vec![[5, 0, 1], [5, 1, 2], [5, 2, 3], [5, 3, 4], [5, 4, 0]]));
+    let (v, f) = grid(4, 4, &[], 0.0, 0); fam.push(("4x4 grid".into(), v, f));
     let mut buf: Vec<i64> = Vec::new();
-    for (name, v, f) in fam.iter() {
-        for variant in 0..6usize {
-            let fs = restore(f, variant);
-            if !in_class(&fs) { r.case(); r.check(false, "internal: hand-built mesh is in the stated class", || format!("{} {:?}", name, fs)); continue; }
-            buf.clear();
-            for t in fs.iter() { buf.extend_from_slice(&[t[0] as i64, t[1] as i64, t[2] as i64]); }
-            p.at(&buf);
-            check_mesh(r, v, &fs, &format!("{} (storage variant {})", name, variant));
+    let mut last_interior = 0usize;
+    for (name, v0, f0) in fam.iter() {
+        // numbering variants: as built; reversed (vertex k becomes n-1-k); boundary vertices first, INTERIOR vertices last
+        for numbering in 0..3usize {
+            let perm = match numbering { 0 => (0..v0.len() as u32).collect::<Vec<u32>>(), 1 => (0..v0.len() as u32).rev().collect(), _ => interior_last(f0, v0.len()) };
+            let (v, f) = renumber(v0, f0, &perm);
+            for variant in 0..6usize {
+                let fs = restore(&f, variant);
+                if !in_class(&fs) { r.case(); r.check(false, "internal: hand-built mesh is in the stated class", || format!("{} {:?}", name, fs)); continue; }
+                if last_edge_is_interior(&fs) { last_interior += 1; }
+                buf.clear();
+                for t in fs.iter() { buf.extend_from_slice(&[t[0] as i64, t[1] as i64, t[2] as i64]); }
+                p.at(&buf);
+                check_mesh(r, &v, &fs, &format!("{} (vertex numbering {}, storage variant {})", name, ["as built", "reversed", "interior vertices last"][numbering], variant));
+            }
         }
     }
+    r.check(last_interior >= 100, "input space: meshes whose lexicographically last edge is an interior edge occur (closed surfaces, disks with the interior vertices numbered last)", || format!("{} of them", last_interior));
+}
+/// vertex k of the input becomes vertex perm[k]
+fn renumber(verts: &[Point3], faces: &[[u32; 3]], perm: &[u32]) -> (Vec<Point3>, Vec<[u32; 3]>) {
+    let mut v = verts.to_vec();
+    for (k, q) in verts.iter().enumerate() { v[perm[k] as usize] = *q; }
+    (v, faces.iter().map(|f| [perm[f[0] as usize], perm[f[1] as usize], perm[f[2] as usize]]).collect())
+}
+/// the numbering that keeps the boundary vertices (and unused ones) first, in their order, and puts the interior vertices last
+fn interior_last(faces: &[[u32; 3]], nv: usize) -> Vec<u32> {
+    let mut allu: Vec<(u32, u32)> = Vec::new();
+    for f in faces { for e in dir_edges(f) { allu.push(ue(e.0, e.1)); } }
+    let used = |v: u32| faces.iter().any(|f| f.contains(&v));
+    let on_boundary = |v: u32| allu.iter().any(|e| (e.0 == v || e.1 == v) && allu.iter().filter(|x| *x == e).count() == 1);
+    let mut order: Vec<u32> = (0..nv as u32).filter(|&v| !used(v) || on_boundary(v)).collect();
+    order.extend((0..nv as u32).filter(|&v| used(v) && !on_boundary(v)));
+    let mut perm = vec![0u32; nv];
+    for (newid, old) in order.iter().enumerate() { perm[*old as usize] = newid as u32; }
+    perm
+}
+fn last_edge_is_interior(faces: &[[u32; 3]]) -> bool {
+    let mut allu: Vec<(u32, u32)> = Vec::new();
+    for f in faces { for e in dir_edges(f) { allu.push(ue(e.0, e.1)); } }
+    match allu.iter().max() { Some(m) => allu.iter().filter(|x| *x == m).count() == 2, None => false }
+}
+
+// ------------------------------------------------------------------------------------------------ (g) edge table with INCONSISTENT winding
+/// `calc_edges` on class G (see in_class_g) restricted to inconsistently wound face lists: the statement demands an edge
+/// table for EVERY mesh with no edge in more than two faces, "including meshes with inconsistent winding"
+fn run_inconsistent_meshes(r: &mut Report, p: &Progress) {
+    let mut buf: Vec<i64> = Vec::new();
+    let mut n_small = 0usize;
+    // larger meshes: closed solids with any faces flipped, disks with INTERIOR faces flipped
+    let mut fam: Vec<(String, Vec<Point3>, Vec<[u32; 3]>)> = Vec::new();
+    for (w, h, d) in [(2.0, 3.0, 4.0), (1.0, 1.0, 1.0)] {
+        let bx = Mesh::create_box(w, h, d, false);
+        fam.push((format!("create_box({}, {}, {})", w, h, d), bx.vertices().to_vec(), bx.faces().to_vec()));
+    }
+    let tv = vec![Point3::new(0.0, 0.0, 0.0), Point3::new(2.0, 0.0, 0.0), Point3::new(0.0, 3.0, 0.0), Point3::new(0.0, 0.0, 5.0)];
+    let tf = vec![[0u32, 2, 1], [0, 1, 3], [1, 2, 3], [2, 0, 3]];
+    fam.push(("tetrahedron".into(), tv.clone(), tf.clone()));
+    let ov = vec![Point3::new(1.0, 0.0, 0.0), Point3::new(-1.5, 0.0, 0.0), Point3::new(0.0, 2.0, 0.0), Point3::new(0.0, -2.5, 0.0), Point3::new(0.0, 0.0, 3.0), Point3::new(0.0, 0.0, -3.5)];
+    let of = vec![[0u32, 2, 4], [2, 1, 4], [1, 3, 4], [3, 0, 4], [2, 0, 5], [1, 2, 5], [3, 1, 5], [0, 3, 5]];
+    fam.push(("octahedron".into(), ov.clone(), of.clone()));
+    let mut bv = tv.clone(); bv.extend(ov.iter().map(|q| Point3::new(q.x + 10.0, q.y, q.z)));
+    let mut bf = tf.clone(); bf.extend(of.iter().map(|f| [f[0] + 4, f[1] + 4, f[2] + 4]));
+    fam.push(("tetrahedron + octahedron (two components)".into(), bv, bf));
+    let (v, f) = grid(3, 3, &[], 0.0, 0); fam.push(("3x3 grid".into(), v, f));
+    let (v, f) = grid(4, 4, &[], 0.0, 0); fam.push(("4x4 grid".into(), v, f));
+    let (v, f) = grid(5, 3, &[(1, 1), (3, 1)], 0.0, 0); fam.push(("5x3 grid with two holes".into(), v, f));
+    let cy = Mesh::create_cylinder(1.0, 2.0, 6);
+    fam.push(("create_cylinder(1, 2, 6)".into(), cy.vertices().to_vec(), cy.faces().to_vec()));
+    let (mut n_closed, mut n_open) = (0usize, 0usize);
+    for (name, v, f) in fam.iter() {
+        let nf = f.len();
+        let mut sets: Vec<Vec<usize>> = Vec::new();
+        for a in 0..nf { sets.push(vec![a]); }
+        for a in 0..nf { for b in 0..a { if nf <= 12 || (a + b) % 3 == 0 { sets.push(vec![b, a]); } } }
+        sets.push((0..nf).step_by(2).collect());
+        sets.push((0..nf).step_by(3).collect());
+        sets.push((0..nf / 2).collect());
+        for which in sets.iter() {
+            let fs = flip(f, which);
+            if !(inconsistent(&fs) && in_class_g(&fs)) { continue; }
+            let closed = fs.iter().all(|t| dir_edges(t).iter().all(|e| fs.iter().filter(|u| dir_edges(u).iter().any(|g| ue(g.0, g.1) == ue(e.0, e.1))).count() == 2));
+            if closed { n_closed += 1; } else { n_open += 1; }
+            for variant in [0usize, 4] {
+                let fs = restore(&fs, variant);
+                buf.clear();
+                for t in fs.iter() { buf.extend_from_slice(&[t[0] as i64, t[1] as i64, t[2] as i64]); }
+                p.at(&buf);
+                r.case();
+                let mesh = Mesh::new(v.clone(), fs.clone(), false);
+                check_edge_table(r, &mesh, v, &fs, &format!("{} with faces {:?} flipped (inconsistent winding, storage variant {})", name, which, variant));
+            }
+        }
+    }
+    // every ordered list of 3 faces over 5 vertices and of 4 faces over 4 vertices (tetrahedra with flipped faces)
+    for (nv, len) in [(5u32, 3usize), (4, 4)] {
+        let verts: Vec<Point3> = base_vertices()[..nv as usize].to_vec();
+        let mut tri: Vec<[u32; 3]> = Vec::new();
+        for a in 0..nv { for b in 0..nv { for c in 0..nv { if a != b && b != c && a != c { tri.push([a, b, c]); } } } }
+        let mut idx = vec![0usize; len];
+        loop {
+            let faces: Vec<[u32; 3]> = idx.iter().map(|&i| tri[i]).collect();
+            if inconsistent(&faces) && in_class_g(&faces) {
+                n_small += 1;
+                buf.clear();
+                for f in faces.iter() { buf.extend_from_slice(&[f[0] as i64, f[1] as i64, f[2] as i64]); }
+                p.at(&buf);
+                r.case();
+                let mesh = Mesh::new(verts.clone(), faces.clone(), false);
+                check_edge_table(r, &mesh, &verts, &faces, "inconsistent winding, Mesh::new(fixed vertices)");
+            }
+            let mut k = 0;
+            while k < len { idx[k] += 1; if idx[k] < tri.len() { break; } idx[k] = 0; k += 1; }
+            if k == len { break; }
+        }
+    }
+    r.check(n_small >= 1000 && n_closed >= 100 && n_open >= 20, "input space: inconsistently wound meshes with no edge in more than two faces occur (small lists, closed solids with flipped faces, disks with flipped interior faces)", || format!("{} small lists, {} closed, {} open", n_small, n_closed, n_open));
 }
 
 fn check_generated(r: &mut Report, mesh: &Mesh, label: &str, closed: bool, centre: &dyn Fn(&Point3) -> Point3) {
@@ -750,7 +903,7 @@ fn run_many_chains(r: &mut Report, p: &Progress) {
 }
 
 pub fn run() -> Option<Report> {
-    let mut r = Report::new("chained_indices: every list of <= 4 pairs over vertex ids 0..5 (406901 lists); clusters_from_sparse: every subset of a 2x2x2 block, a 3x3x1 slab and a 2x2x3 block of voxels (4864 sets, each twice); Mesh::calc_edges / get_patches / get_patch_boundary_points: every ordered list of <= 3 faces over 5 vertices that is consistently wound and free of vertex-only contacts, 11 larger hand-built meshes of that class in 6 storage variants each, create_box (4 sizes) and create_cylinder (steps 3..=16, 2 sizes), repeated 2-3 times per mesh for hash order; every <= 3 face list with an edge in three faces must be refused; each group under a progress watchdog (6 s per input). Vertex-only contacts and inconsistent winding are excluded for calc_edges / patch boundaries (D7). Edge lengths to relative 1e-12 on grids (1x1, 4x3, 12x9), boxes and 12-step cylinders of pitch 5e-6 .. 1 at 5 offsets up to 1e6 from the origin. get_patches on ANY face list (partition and edge-connected patches always, maximality when no directed edge occurs twice): all lists of <= 2 faces over 5 vertices x 64 calls, 3-face lists starting with [0,1,2] / [0,2,1] x 8 calls, box / cylinder / grid / strip / tetrahedron with single faces, pairs, every other and all faces flipped x 64 calls. chained_indices on 1..12 separate chains / closed loops of 1..9 links in 4 storage orders");
+    let mut r = Report::new("chained_indices: every list of <= 4 pairs over vertex ids 0..5 (406901 lists); clusters_from_sparse: every subset of a 2x2x2 block, a 3x3x1 slab and a 2x2x3 block of voxels (4864 sets, each twice); Mesh::calc_edges / get_patches / get_patch_boundary_points: every ordered list of <= 3 faces over 5 vertices that is consistently wound and free of vertex-only contacts, 11 larger hand-built meshes of that class in 6 storage variants each, create_box (4 sizes) and create_cylinder (steps 3..=16, 2 sizes), repeated 2-3 times per mesh for hash order; every <= 3 face list with an edge in three faces must be refused; each group under a progress watchdog (6 s per input). Vertex-only contacts and inconsistent winding are excluded for calc_edges / patch boundaries (D7). Edge lengths to relative 1e-12 on grids (1x1, 4x3, 12x9), boxes and 12-step cylinders of pitch 5e-6 .. 1 at 5 offsets up to 1e6 from the origin. get_patches on ANY face list (partition and edge-connected patches always, maximality when no directed edge occurs twice): all lists of <= 2 faces over 5 vertices x 64 calls, 3-face lists starting with [0,1,2] / [0,2,1] x 8 calls, box / cylinder / grid / strip / tetrahedron with single faces, pairs, every other and all faces flipped x 64 calls. chained_indices on 1..12 separate chains / closed loops of 1..9 links in 4 storage orders. ROUND 4: the hand-built meshes (+ a disk around the LAST vertex, a 4x4 grid) also with the vertex numbering reversed and with the interior vertices numbered last (lexicographically last edge interior); calc_edges on INCONSISTENTLY wound meshes whose boundary edges still give every boundary vertex one successor and one predecessor (closed surfaces with any faces flipped, disks with flipped interior faces): every such ordered list of 3 faces over 5 vertices and of 4 faces over 4 vertices, boxes / tetrahedron / octahedron / both / 3x3, 4x4, 5x3-with-holes grids with single faces, pairs, every 2nd, every 3rd and the first half of the faces flipped, in 2 storage variants: edge table produced (not Err), each undirected edge once with its length, face -> edges, boundary loops");
     guarded(&mut r, "chaining", "pairs (flattened)", run_chains);
     guarded(&mut r, "voxels", "voxels (flattened x,y,z)", run_voxels);
     guarded(&mut r, "mesh", "faces (flattened)", run_small_meshes);
@@ -758,6 +911,7 @@ pub fn run() -> Option<Report> {
     guarded(&mut r, "generators", "generator case", run_generators);
     guarded(&mut r, "edge lengths", "case id", run_far_meshes);
     guarded(&mut r, "patches (any winding)", "faces (flattened)", run_flipped_meshes);
+    guarded(&mut r, "mesh (inconsistent winding)", "faces (flattened)", run_inconsistent_meshes);
     guarded(&mut r, "chaining", "k chains / links / closed / storage order", run_many_chains);
     Some(r)
 }
